@@ -455,6 +455,7 @@ impl SetHarness {
                         Ret::None => false,
                         Ret::EvenIds => k.id % 2 == 0,
                         Ret::Alternate => visit % 2 == 0,
+                        Ret::KeepHigh => k.id as usize >= hashbrown::verif::GROUP_WIDTH,
                     };
                     visit += 1;
                     if keep {
@@ -544,7 +545,7 @@ impl Harness for SetHarness {
                 v.push(SetOp::TryReserveOne);
             }
             v.push(SetOp::ShrinkToLen);
-            for k in [Ret::All, Ret::None, Ret::EvenIds, Ret::Alternate] {
+            for k in [Ret::All, Ret::None, Ret::EvenIds, Ret::Alternate, Ret::KeepHigh] {
                 v.push(SetOp::Retain(k));
             }
         }
@@ -861,6 +862,24 @@ pub fn check_pair(mk_a: &dyn Fn(bool) -> SetSut, mk_b: &dyn Fn() -> SetSut, univ
         ("==", a.set == b.set, ia == ib),
         ("== (reversed)", b.set == a.set, ia == ib),
     ];
+    // the same object on both sides (every set is a subset and superset of itself and equal to itself;
+    // it is disjoint from itself only when empty)
+    let selfp = [
+        ("A.is_subset(&A)", a.set.is_subset(&a.set), true),
+        ("A.is_superset(&A)", a.set.is_superset(&a.set), true),
+        ("A.is_disjoint(&A)", a.set.is_disjoint(&a.set), ia.is_empty()),
+        ("A == A", a.set == a.set, true),
+        ("A.intersection(&A).count()", a.set.intersection(&a.set).count() == ia.len(), true),
+        ("A.difference(&A).count()", a.set.difference(&a.set).count() == 0, true),
+        ("A.symmetric_difference(&A).count()", a.set.symmetric_difference(&a.set).count() == 0, true),
+        ("A.union(&A).count()", a.set.union(&a.set).count() == ia.len(), true),
+    ];
+    for (name, got, want) in selfp {
+        if got != want {
+            return Err(format!("{name}: A = {:?}: returned {got}, mathematical answer {want}", ia));
+        }
+        n += 1;
+    }
     for (name, got, want) in preds {
         if got != want {
             return Err(format!("{name}: A = {:?}, B = {:?}: returned {got}, mathematical answer {want}", ia, ib));
